@@ -56,7 +56,10 @@ PLANS = {
                 mcgen=[dict(model="MC_Rem", quick="MC_Rem_quick.cfg", thorough="MC_Rem_thorough.cfg")]),
     "C10": dict(drive=True, mcgen=[dict(model="MC_Roots", quick="MC_Roots_quick.cfg", thorough="MC_Roots_thorough.cfg")]),
     "C11": dict(drive=True, mcgen=[dict(model="MC_Roots", quick="MC_Roots_quick.cfg", thorough="MC_Roots_thorough.cfg")]),
-    "C12": dict(drive=True, shard=1500, mcgen=[dict(model="MC_Roots", quick="MC_Roots_quick.cfg", thorough="MC_Roots_thorough.cfg")]),
+    "C12": dict(drive=True, shard=1500,
+                mc=[dict(model="MC_Inverse", quick="MC_Inverse_shipped.cfg", only="thorough", expect_violation="ResultOK")],
+                mcgen=[dict(model="MC_Roots", quick="MC_Roots_quick.cfg", thorough="MC_Roots_thorough.cfg"),
+                       dict(model="MC_Inverse", quick="MC_Inverse_quick.cfg", thorough="MC_Inverse_thorough.cfg")]),
     "C13": dict(drive=True, mc=[dict(model="MC_Exp", quick="MC_Exp.cfg", workers=6)]),
     "C14": dict(drive=True, shard=700, mc=[dict(model="MC_Floats", quick="MC_Floats.cfg")],
                 bounds=dict(quick=dict(model_checked="all 65536 binary16 patterns (decoder generic in the field widths)", not_reached="the exhaustive sweep of all 2^32 binary32 patterns: stratified sample (every exponent field x boundary / few-bit / random mantissas x both signs)"),
